@@ -2,6 +2,8 @@
 
 from __future__ import annotations
 
+from ..vloop import texc
+
 from typing import Any
 
 from xknx.exceptions import ConversionError
@@ -115,8 +117,8 @@ def library_built_pdus(part: Part) -> None:
 
         t = w.spawn(user(), name="harness-user")
         w.loop.run_until(w.loop.time() + 600)
-        if not t.done() or t.exception() is not None:
-            part.viol("library-built-pdu:connection-fails", f"40 requests on one connection: {t.exception() if t.done() else 'not finished'!r}; sent {[repr(tg.tpci) for _t, tg in w.sent][-6:]}", {"library": True})
+        if not t.done() or texc(t) is not None:
+            part.viol("library-built-pdu:connection-fails", f"40 requests on one connection: {texc(t) if t.done() else 'not finished'!r}; sent {[repr(tg.tpci) for _t, tg in w.sent][-6:]}", {"library": True})
         kinds = set()
         for _t, tg in w.sent:
             part.evaluations += 1
